@@ -23,8 +23,8 @@
    star_kwargs)`) are ONE lower bound for a parameter annotated T_k: their
    union (pyanalyze turns the tuple / dict of collected arguments into
    tuple[union, ...] / dict[str, union] first; when nothing was collected the
-   element type is Any, so an unused `*args: T` contributes the lower bound Any
-   and T is solved to Any unless another argument gives a lower bound).  A default contributes its
+   element type is Any[unreachable], which — in the repaired code — contributes
+   no lower bound; before the repair it made T Any: C06_unused_star_args_refuted_before_fix).  A default contributes its
    lower bound when it fits the declaration and nothing otherwise, and is never
    reported.
 
@@ -135,6 +135,12 @@ Section CallModel.
     let bs := arg_bounds (decl_of s k) v in
     if is_err (mresolve O limit bs) then None else Some (tag k bs).
 
+  (* TypeVarValue.can_assign(Any[unreachable]) — the element type of an empty collection:
+     only the inherent bounds (repo_fixes/C06-empty-collection-lower-bound) *)
+  Definition inherent_gen (s : csig) (k : nat) : option (list tagged) :=
+    let bs := inherent (decl_of s k) in
+    if is_err (mresolve O limit bs) then None else Some (tag k bs).
+
   (* TypeVarValue.can_be_assigned(v): UpperBound(v) + inherent bounds *)
   Definition upper_gen (s : csig) (k : nat) (v : V) : option (list tagged) :=
     let bs := UpperBound v :: inherent (decl_of s k) in
@@ -166,7 +172,7 @@ Section CallModel.
         match av_values vs with
         | None => None
         | Some l => match unite_all l with
-                    | None => lower_gen s k (any_generic O)   (* an empty *args / **kwargs: its element type is Any *)
+                    | None => inherent_gen s k   (* an empty *args / **kwargs says nothing about T_k (repaired code) *)
                     | Some u => lower_gen s k u
                     end
         end
